@@ -159,17 +159,21 @@ func c18Getters(p *core.Program, r *core.Report) {
 		}
 		parses := false
 		ast.Inspect(fi.Decl.Body, func(n ast.Node) bool {
-			if call, ok := n.(*ast.CallExpr); ok && strings.HasPrefix(stripSpaces(types.ExprString(call.Fun)), "strconv.Parse") {
-				parses = true
+			if call, ok := n.(*ast.CallExpr); ok {
+				if s := stripSpaces(types.ExprString(call.Fun)); strings.HasPrefix(s, "strconv.Parse") || s == "strconv.Atoi" {
+					parses = true
+				}
 			}
 			return true
 		})
 		if !parses {
 			continue
 		}
-		ps, _ := paths.Enumerate(fi.Decl.Body, paths.Config{Info: fi.Pkg.TypesInfo,
+		ginfo := fi.Pkg.TypesInfo
+		gnorm := func(e ast.Expr) string { return stripSpaces(types.ExprString(e)) }
+		ps, _ := paths.Enumerate(fi.Decl.Body, paths.Config{Info: ginfo,
 			Cond: func(c ast.Expr, v bool) *paths.Event {
-				return &paths.Event{Kind: "COND", Arg: fmt.Sprintf("%s=%v", stripSpaces(types.ExprString(c)), v)}
+				return &paths.Event{Kind: "COND", Arg: condKey(ginfo, gnorm, c, v)}
 			},
 			Classify: func(n ast.Node) []paths.Event {
 				if rs, ok := n.(*ast.ReturnStmt); ok && len(rs.Results) == 1 {
@@ -186,9 +190,9 @@ func c18Getters(p *core.Program, r *core.Report) {
 			}})
 		var probs []string
 		for _, pa := range ps {
-			empty := pa.HasArg("COND", `v==""=true`)
-			errT := pa.HasArg("COND", "err!=nil=true")
-			errF := pa.HasArg("COND", "err!=nil=false")
+			empty := pa.HasArg("COND", cc("v", "==", `""`, true)) || pa.HasArg("COND", cc("len(v)", "==", "0", true))
+			errT := pa.HasArg("COND", cc("err", "!=", "nil", true))
+			errF := pa.HasArg("COND", cc("err", "!=", "nil", false))
 			switch {
 			case empty && !pa.HasArg("RETVAL", "default"):
 				probs = append(probs, "an empty value does not yield the default")
@@ -198,7 +202,60 @@ func c18Getters(p *core.Program, r *core.Report) {
 				probs = append(probs, "a well-formed value is not returned")
 			}
 		}
-		fileProbs(r, "C18.getters", core.FuncName(fi.Obj), p.Pos(fi.Decl.Pos()), probs, "default on empty and on parse error, parsed value otherwise")
+		// the parse must reject what the result type cannot hold: parsing wider (Atoi, ParseInt(..., 64))
+		// and then converting to a narrower integer wraps an out-of-range value instead of yielding the default
+		parsedBits := map[types.Object]int64{}
+		ast.Inspect(fi.Decl.Body, func(n ast.Node) bool {
+			as, ok := n.(*ast.AssignStmt)
+			if !ok || len(as.Rhs) != 1 || len(as.Lhs) < 1 {
+				return true
+			}
+			call, ok := ast.Unparen(as.Rhs[0]).(*ast.CallExpr)
+			if !ok {
+				return true
+			}
+			var bits int64
+			switch gnorm(call.Fun) {
+			case "strconv.Atoi":
+				bits = 64
+			case "strconv.ParseInt", "strconv.ParseUint":
+				if len(call.Args) == 3 {
+					if b, ok := constIntOf(ginfo, call.Args[2]); ok {
+						bits = b
+						if b == 0 {
+							bits = 64
+						}
+					}
+				}
+			}
+			if bits > 0 {
+				if id, ok := as.Lhs[0].(*ast.Ident); ok {
+					parsedBits[ginfo.ObjectOf(id)] = bits
+				}
+			}
+			return true
+		})
+		ast.Inspect(fi.Decl.Body, func(n ast.Node) bool {
+			call, ok := n.(*ast.CallExpr)
+			if !ok || len(call.Args) != 1 {
+				return true
+			}
+			tv, ok := ginfo.Types[call.Fun]
+			if !ok || !tv.IsType() {
+				return true
+			}
+			tb, ok := tv.Type.Underlying().(*types.Basic)
+			if !ok || tb.Info()&types.IsInteger == 0 {
+				return true
+			}
+			if id, ok := ast.Unparen(call.Args[0]).(*ast.Ident); ok {
+				if pb, ok := parsedBits[ginfo.ObjectOf(id)]; ok && int64(typeBits(tv.Type)) < pb {
+					probs = append(probs, fmt.Sprintf("the value is parsed as a %d-bit integer and then converted to %s: an out-of-range number wraps around instead of falling back to the default", pb, tv.Type))
+				}
+			}
+			return true
+		})
+		fileProbs(r, "C18.getters", core.FuncName(fi.Obj), p.Pos(fi.Decl.Pos()), uniq(probs), "default on empty and on parse error, parsed value otherwise")
 	}
 	nth := map[string]int{}
 	for _, u := range scanErrChecksDeep(p, []string{"config/conffile"}) {
